@@ -37,6 +37,9 @@ pub struct FmtPlan {
     pub stdin_cap: usize,
     pub stdout_cap: usize,
     pub chunk: usize,
+    /// microseconds the (otherwise healthy) formatter thinks before it prints (0 = none)
+    #[serde(default)]
+    pub think_us: u64,
 }
 
 #[derive(Debug, Clone, Serialize, Deserialize, PartialEq, Eq)]
@@ -50,6 +53,10 @@ pub struct ProcessPlan {
     /// CPUs the process believes it has (0 = the real number); a configuration, not a fault.
     #[serde(default)]
     pub cpus: usize,
+    /// Virtual nanoseconds every scheduling point costs on the monotonic clock of the calling
+    /// thread (0 = a fast machine): `Instant`-based budgets of the code under test read this.
+    #[serde(default)]
+    pub tick_ns: u64,
     pub threads: Vec<ThreadPlan>,
     pub sched: SchedPlan,
     pub fmt: FmtPlan,
@@ -123,12 +130,14 @@ pub struct WorkerOutput {
 struct C18Backend {
     sched: Arc<Sched>,
     tid: usize,
+    tick_ns: u64,
     fmt: FmtPlan,
     children: Mutex<Vec<Arc<SimChild>>>,
 }
 
 impl Backend for C18Backend {
     fn point(&self, site: &'static str) {
+        seams::advance_thread_clock(self.tick_ns);
         self.sched.point(self.tid, site);
     }
 
@@ -138,15 +147,22 @@ impl Backend for C18Backend {
         plan.stdin_cap = self.fmt.stdin_cap;
         plan.stdout_cap = self.fmt.stdout_cap;
         plan.chunk = self.fmt.chunk;
+        if self.fmt.think_us > 0 {
+            plan.script.insert(1, procsim::Op::Delay(self.fmt.think_us));
+        }
         let sched = self.sched.clone();
         let tid = self.tid;
+        let tick_ns = self.tick_ns;
         self.sched.point(self.tid, "seam:spawn");
         Some(
             procsim::spawn(
                 &plan,
                 spec,
                 Arc::new(String::new()),
-                Some(Box::new(move |site| sched.point(tid, site))),
+                Some(Box::new(move |site| {
+                    seams::advance_thread_clock(tick_ns);
+                    sched.point(tid, site)
+                })),
             )
             .map(|child| {
                 self.children.lock().unwrap().push(child.clone());
@@ -237,6 +253,7 @@ fn run_process(input: &WorkerInput) -> WorkerOutput {
         let golden = golden.clone();
         let results = results.clone();
         let fmt = p.fmt.clone();
+        let tick_ns = p.tick_ns;
         let spawns = spawns.clone();
         let unreaped = unreaped.clone();
         let handle = std::thread::Builder::new()
@@ -258,6 +275,7 @@ fn run_process(input: &WorkerInput) -> WorkerOutput {
                 let backend = Arc::new(C18Backend {
                     sched: sched.clone(),
                     tid,
+                    tick_ns,
                     fmt,
                     children: Mutex::new(Vec::new()),
                 });
@@ -540,6 +558,7 @@ fn pristine_process(job_count: usize) -> ProcessPlan {
         clock_jump_s: 0,
         clock_jump_after: u64::MAX,
         cpus: 0,
+        tick_ns: 0,
         threads: vec![ThreadPlan {
             alloc_point_every: 0,
             entropy: 0,
@@ -555,6 +574,7 @@ fn pristine_process(job_count: usize) -> ProcessPlan {
             stdin_cap: 65536,
             stdout_cap: 65536,
             chunk: 4096,
+            think_us: 0,
         },
     }
 }
@@ -755,6 +775,7 @@ pub fn gen_plan(rng: &mut Rng) -> RunPlan {
             },
             clock_jump_after: rng.range(0, 5),
             cpus: *rng.pick(&[0usize, 0, 1, 1, 2, 4]),
+            tick_ns: *rng.pick(&[0u64, 0, 0, 100_000, 20_000_000, 300_000_000]),
             threads,
             sched: SchedPlan {
                 seed: rng.next_u64(),
@@ -766,6 +787,7 @@ pub fn gen_plan(rng: &mut Rng) -> RunPlan {
                 stdin_cap: *rng.pick(&[64usize, 4096, 65536, 1 << 20]),
                 stdout_cap: *rng.pick(&[64usize, 4096, 65536, 1 << 20]),
                 chunk: *rng.pick(&[64usize, 512, 4096, 65536]),
+                think_us: *rng.pick(&[0u64, 0, 0, 1_000, 5_000_000]),
             },
         });
     }
@@ -1126,6 +1148,12 @@ fn minimise(scratch: &Scratch, golden: &Golden, plan: &RunPlan, class: &str) -> 
         c.processes[pi].cpus = 0;
         attempt!(c);
         let mut c = best.clone();
+        c.processes[pi].tick_ns = 0;
+        attempt!(c);
+        let mut c = best.clone();
+        c.processes[pi].fmt.think_us = 0;
+        attempt!(c);
+        let mut c = best.clone();
         for t in &mut c.processes[pi].threads {
             t.alloc_point_every = 0;
         }
@@ -1213,6 +1241,7 @@ fn plan_summary(plan: &RunPlan) -> serde_json::Value {
             "env_vars": p.env.iter().map(|(k, _)| k.clone()).collect::<Vec<_>>(),
             "cwd_kind": p.cwd_kind,
             "cpus": p.cpus,
+            "tick_ns": p.tick_ns,
             "clock_skew_years": p.clock_skew_s / (365 * 24 * 3600),
         })).collect::<Vec<_>>(),
     })
@@ -1568,6 +1597,38 @@ pub fn replay(path: &str, doc: &serde_json::Value) -> i32 {
     0
 }
 
+/// Debugging aid: execute one plan of the default batch several times and show where logs differ.
+pub fn debug_plan(index: u64) -> i32 {
+    let seed = crate::verif_seed();
+    let scratch = Scratch::new().unwrap();
+    let golden: Golden = Mutex::new(HashMap::new());
+    let plan = plan_for_run(seed, index);
+    let mut first: Option<RunResult> = None;
+    for attempt in 0..12 {
+        let r = execute(&scratch, &golden, &plan, true).unwrap();
+        match &first {
+            None => first = Some(r),
+            Some(f) => {
+                if f.log_hash != r.log_hash {
+                    for (pi, (a, b)) in f.logs.iter().zip(r.logs.iter()).enumerate() {
+                        let pos = a.iter().zip(b.iter()).position(|(x, y)| x != y);
+                        println!("attempt {attempt}: process {pi}: lens {} {} first diff at {:?}", a.len(), b.len(), pos);
+                        if let Some(p) = pos {
+                            for k in p.saturating_sub(4)..(p + 4).min(a.len()).min(b.len()) {
+                                println!("   {:40} | {}", a[k], b[k]);
+                            }
+                        }
+                    }
+                    println!("stall handoffs: {} vs {}", f.stats.stall_handoffs, r.stats.stall_handoffs);
+                    return 1;
+                }
+            }
+        }
+    }
+    println!("12 executions, identical logs");
+    0
+}
+
 pub fn selftest() -> i32 {
     let seed = crate::verif_seed();
     let scratch = match Scratch::new() {
@@ -1598,7 +1659,13 @@ pub fn selftest() -> i32 {
                 });
             }
         });
-        diff += hashes.lock().unwrap().iter().filter(|(a, b)| a != b).count();
+        for (i, (a, b)) in hashes.lock().unwrap().iter().enumerate() {
+            if a != b {
+                diff += 1;
+                let plan = plan_for_run(seed, i as u64);
+                println!("  differing plan {i} (workers {workers}): {}", plan_summary(&plan));
+            }
+        }
     }
     println!("C18 selftest: {n} plans x 2 executions x worker counts (1, 16): {diff} differing event logs");
     if diff == 0 {
